@@ -66,7 +66,7 @@ def _expand_chunk(args):
             vs += system.compare(l2, m2, op, outcome, expected)
             vs += system.invariant(l2)
             for v in vs:
-                v["case"] = {"history": [system.ops[i] for i in hist] + [op]}
+                v["case"] = dict(getattr(system, "case_extra", {}), history=[system.ops[i] for i in hist] + [op])
             out.append((digest(system.canon(l2)), outcome, vs))
     return out
 
@@ -84,7 +84,7 @@ def _verify_chunk(args):
         if hasattr(system, "state_check"):
             vs = system.state_check(live)
             for v in vs:
-                v["case"] = {"history": [system.ops[i] for i in h]}
+                v["case"] = dict(getattr(system, "case_extra", {}), history=[system.ops[i] for i in h])
         out.append((d, vs))
     return out
 
